@@ -28,7 +28,7 @@ CLAIMED = {
    note="Trusted: iteration-order shim; the admissible-set model (type identity, interface implementation, method presence/result). Outside: methods with parameters, more than two instances per type."),
  "C07": dict(engine=E1+" + sequence enumeration on the real singleton registry", design="§7 C07",
    technique="bounded exhaustive enumeration of provider populations x name assignments x requested names x field kinds x required/optional x sibling placements on the real container; all registration sequences (<=4) with colliding names on the real registry",
-   text="Every population of <=3 providers over {TA,TB,TD} x {x,y,default name} with distinct registered names x requested name {x,y,TA's default name,absent} x field kind {*TA, I1, any} x required/optional x four sibling-field arrangements x both iteration orders is started for real (holders built with reflect.StructOf); oracle: field is exactly the component registered under the name; absent or not assignable => error (no panic) if required, untouched and no error if optional. All 780 (thorough 3905) registration sequences over five instances with colliding names: each name maps to its first instance.",
+   text="Every population of <=3 providers over {TA,TB,TD} x {x,y,default name} with distinct registered names x requested name {x,y,TA's default name,absent} x field kind {*TA, I1, any} x required/optional x four sibling-field arrangements x both iteration orders is started for real (holders built with reflect.StructOf); oracle: field is exactly the component registered under the name; absent or not assignable => error (no panic) if required, untouched and no error if optional. All 7380 registration sequences (length <=4) over nine instances with colliding names (custom = custom, custom = another default name, two default-named, zero-size and embedded-field components sharing an address): each name maps to its first instance.",
    note="Trusted: reflect.StructOf holders behave like declared structs (C11 checks twins); iteration-order shim. Outside: >3 providers; by-name tags on slice fields."),
  "C08": dict(engine=E1, design="§7 C08",
    technique="bounded exhaustive enumeration of provider populations x holder shapes x every permutation of candidate iteration order on the real container; per-field ranking reference model",
@@ -38,6 +38,10 @@ CLAIMED = {
    technique="fault enumeration by deviation-bounded DFS over reached fault sites (all singles, all reachable pairs) on the real container, plus unsatisfiable required/optional points and configuration values as exhaustive program variants",
    text="All 729 three-node graphs x three lazy masks, each with a configuration value per node, a user post-processor implementing every callback, a scanner, a factory post-processor, two loaders and two runners: every reached callback site (AfterPropertiesSet, Init, BeforeInstantiation, AfterInstantiation, Properties, EarlyReference, Before/AfterInitialization per node, scanner per node, factory post-processor, loaders, runners) is armed alone and in every reachable pair. Oracle: Run returns an error, no panic (also none in spawned goroutines), terminates within budget, and no runner runs unless the first fault is a runner's. 26k variants with one unsatisfiable by-name / by-type / configuration point (required or optional) on each node: required => error, optional => identical wiring and event log to the program without the point and zero value in the field.",
    note="Trusted: harness callbacks (faults are returned errors); termination budgets. Outside: three or more simultaneous faults; panicking user callbacks."),
+ "C12": dict(engine="E4 exhaustive input enumeration + E1 starts", design="§7 C12",
+   technique="bounded exhaustive enumeration of all participant sequences (three ordering classes x five Order values incl. MinInt/MaxInt) through the real sorting helper (length <=6) and through real starts as post-processors, runners and loaders (length <=3) under every registry iteration order",
+   text="All 1.9M sequences of length <=6 over {PriorityOrdered(o), Ordered(o), unordered: o in {MinInt,-1,0,1,MaxInt}} go through the real SortOrderedComponents; all sequences of length <=3 are registered as user post-processors, application runners and configuration loaders and started for real under every permutation of the registry iteration order / loader-adding order. Oracle: output is a permutation (identity of elements), classes in order P<O<N, Order non-decreasing inside P and inside O, and the observed invocation log of the callbacks is such a sequence with every participant exactly once.",
+   note="Trusted: harness participants' event log. Outside: more than 6 participants directly / 3 through a start (thorough 7 / 4); Order values other than the five."),
  "C10": dict(engine=E1+" (+E2 scheduler for scan-phase schedules)", design="§7 C10",
    technique="differential bounded exhaustive exploration: each program under all permutations of iteration and registration order plus every single per-call order deviation on the real container; outcome signatures (tied points masked) must coincide",
    text="C08 families under all provider permutations (registration order follows), holders that are candidates for their own field with <=2 other candidates under all permutations of (providers, holder), all 2-node graphs with self loops and 3-node graphs under all 6x6 (iteration, registration) orders, and 2-provider programs under every single non-default answer of every registry enumeration: the signature (success, per-point target, sorted slice contents, ties masked) must be identical across all executions of one program.",
